@@ -21,10 +21,12 @@
  */
 
 #include <cctype>
+#include <cerrno>
 #include <cstdarg>
 #include <cstdio>
 #include <cstdlib>
 #include <cstring>
+#include <limits>
 #include <fstream>
 
 #include <algorithm>
@@ -247,10 +249,17 @@ void FormatRST(fmt::Writer &w,
 }
 
 int OptionHelper<int>::Parse(const char *&s, bool) {
+  const char *start = s;
   char *end = 0;
+  errno = 0;
   long value = std::strtol(s, &end, 10);
   s = end;
-  return value;
+  if (errno == ERANGE || value < std::numeric_limits<int>::min() ||
+      value > std::numeric_limits<int>::max())
+    throw OptionError(fmt::format(
+        "Integer option value {} is out of range",
+        std::string(start, end - start)));
+  return static_cast<int>(value);
 }
 
 double OptionHelper<double>::Parse(const char *&s, bool) {
